@@ -4,6 +4,24 @@ use serde_json::Value;
 
 pub mod c01;
 pub mod c02;
+pub mod c03;
+pub mod c04;
+pub mod c05;
+pub mod c06;
+pub mod c07;
+pub mod c08;
+pub mod c09;
+pub mod c10;
+pub mod c11;
+pub mod c12;
+pub mod c13;
+pub mod c14;
+pub mod c15;
+pub mod c16;
+pub mod c17;
+pub mod c18;
+pub mod c19;
+pub mod c20;
 
 pub struct Prop {
     pub id: &'static str,
@@ -15,5 +33,23 @@ pub fn registry() -> Vec<Prop> {
     vec![
         Prop { id: "C01", run: c01::run, replay: c01::replay },
         Prop { id: "C02", run: c02::run, replay: c02::replay },
+        Prop { id: "C03", run: c03::run, replay: c03::replay },
+        Prop { id: "C04", run: c04::run, replay: c04::replay },
+        Prop { id: "C05", run: c05::run, replay: c05::replay },
+        Prop { id: "C06", run: c06::run, replay: c06::replay },
+        Prop { id: "C07", run: c07::run, replay: c07::replay },
+        Prop { id: "C08", run: c08::run, replay: c08::replay },
+        Prop { id: "C09", run: c09::run, replay: c09::replay },
+        Prop { id: "C10", run: c10::run, replay: c10::replay },
+        Prop { id: "C11", run: c11::run, replay: c11::replay },
+        Prop { id: "C12", run: c12::run, replay: c12::replay },
+        Prop { id: "C13", run: c13::run, replay: c13::replay },
+        Prop { id: "C14", run: c14::run, replay: c14::replay },
+        Prop { id: "C15", run: c15::run, replay: c15::replay },
+        Prop { id: "C16", run: c16::run, replay: c16::replay },
+        Prop { id: "C17", run: c17::run, replay: c17::replay },
+        Prop { id: "C18", run: c18::run, replay: c18::replay },
+        Prop { id: "C19", run: c19::run, replay: c19::replay },
+        Prop { id: "C20", run: c20::run, replay: c20::replay },
     ]
 }
